@@ -65,9 +65,18 @@ func isFresh(v ssa.Value) bool {
 	if len(ls) == 0 {
 		return false
 	}
+	nonNil := 0
+	for _, l := range ls {
+		if l.Kind != "nil" {
+			nonNil++
+		}
+	}
+	if nonNil == 0 {
+		return false
+	}
 	for _, l := range ls {
 		switch l.Kind {
-		case "alloc":
+		case "alloc", "nil":
 			continue
 		case "other":
 			switch l.V.(type) {
